@@ -1,9 +1,14 @@
 """property id -> check function(prop, tier, replay) -> exit code"""
-from . import router, reg, selector, framing
+from . import router, reg, selector, framing, rpc
 
 CHECKS = {
     "C01": router.run,
     "C02": router.run,
+    "C05": rpc.run,
+    "C06": rpc.run,
+    "C08": rpc.run,
+    "C14": rpc.run,
+    "C18": rpc.run,
     "C16": reg.run,
     "C17": framing.run,
     "C19": selector.run,
